@@ -952,6 +952,37 @@ def sharing_clause(model, rep, funcs):
     rep.floor("S27", 2, "(BatchLoader.replace / binning assign the image registry of the derived loader)")
 
 
+def borrowed_fields_clause(model, rep, funcs):
+    """S28.  A field that a loader class fills with an object handed in by the caller (`self._molecules = molecules` in a constructor, `out._molecules = molecules`
+    in replace) is borrowed: the caller, the parent loader and every sibling made by replace() hold the very same object.  No loader method may therefore change
+    such an object in place (`self._molecules.append(...)`): it re-binds the field to a new object instead."""
+    ea = EffectAnalysis(model)
+    loader_classes = [ci for ci in model.all_classes if ci.module.relpath.startswith("acryo/loader/")]
+    borrowed: dict = {}
+    for fn in model.all_functions:
+        if fn.cls is None or fn.cls not in loader_classes:
+            continue
+        params = set(fn.param_names()[1:])
+        for st in walk_no_nested(fn.node):
+            if isinstance(st, ast.Assign) and len(st.targets) == 1 and isinstance(st.targets[0], ast.Attribute) and isinstance(st.targets[0].value, ast.Name) and \
+                    isinstance(st.value, ast.Name) and st.value.id in params:
+                borrowed.setdefault(st.targets[0].attr, fn.loc(st))
+    for fld, where in sorted(borrowed.items()):
+        rep.instance("S28.field", f"{fld} <- parameter at {where}")
+    for fn in model.all_functions:
+        if fn.cls is None or fn.cls not in loader_classes or fn.parent is not None:
+            continue
+        effs = [e for e in ea.closed_effects(fn, depth=2) if e.kind == "mutate" and e.root == "self" and e.field in borrowed]
+        if not effs and not any(isinstance(n, ast.Attribute) and n.attr in borrowed for n in ast.walk(fn.node)):
+            continue
+        rep.instance("S28", fn.loc())
+        rep.ob("S28", fn.anchor, "objects handed in by the caller (borrowed fields) are never changed in place by the loader; the field is re-bound instead",
+               not effs, "; ".join(e.describe() for e in effs[:2]) + (f" - `{effs[0].field}` is the object stored at {borrowed[effs[0].field]}, shared with its "
+                                                                     f"provider and with every loader made by replace()" if effs else ""),
+               node=(effs[0].node if effs else fn.node), fn=(effs[0].fn if effs else fn), clause="5 purity", stmt=(None if effs else f"def {fn.name} borrowed"))
+    rep.floor("S28.field", 2, "(molecules and image fields are filled from constructor / replace parameters)")
+
+
 # --------------------------------------------------------------------------- clause 6: partition
 def partition_clause(model, rep, funcs):
     n = 0
@@ -1071,6 +1102,11 @@ def check(model, rep, tier):
     partition_clause(model, rep, funcs)
     registry_clause(model, rep, funcs)
     sharing_clause(model, rep, funcs)
-    from .common import dask_key_obligations
+    borrowed_fields_clause(model, rep, funcs)
+    from .common import dask_key_obligations, frame_orientation_obligations
+    for a_ in (LB + "apply", LG + "apply"):
+        if funcs.get(a_) is not None:
+            frame_orientation_obligations(model, rep, funcs[a_], "1 order")
+    rep.floor("ORIENT.frame", 1, "(LoaderBase.apply builds the result table)")
     dask_key_obligations(model, rep, "1 order")
     rep.floor("KEY.site", 8, "(from_array / from_delayed / delayed / map_blocks call sites)")
